@@ -209,15 +209,20 @@ PROPS["C11"] = {
 
 PROPS["C15"] = {
     "parts": [{"name": "seq", "pkg": "c15", "chk": "chk_c15", "args": ["seq"]},
-              {"name": "race", "pkg": "c15", "chk": "chk_c15_race", "args": ["race"]}],
+              {"name": "race", "pkg": "c15", "chk": "chk_c15_race", "args": ["race"]},
+              {"name": "sched", "pkg": "c15", "chk": "chk_c15_sched", "args": ["sched"], "crash_reasons": {"*": 7}}],
     "reasons": {"seq": {"1": "an update was delivered although the contract equals the last delivered one, or a changed contract / the first success was not delivered",
                         "2": "a failed poll did not (only) report an error"},
-                "race": {"3": "a resolve-now request issued after a change while a poll was in progress was lost", "4": "a callback happened after Close had returned", "5": "random sequence of contract changes, ResolveNow calls and held-open polls: a resolve-now request issued after the last change was lost (the last delivered update is not the final contract)"}},
-    "rule": "seq: histories of 1-6 polls over a scripted reflection server whose contract (descriptor bytes and/or service list) changes between polls (4 versions), with protocol-version availability {both, v1 only, v1alpha only, neither}, failures at every protocol step (stream open, ListServices, k-th file response; error or timeout), 5 answering policies; polls driven by PollManually + ResolveNow; the flat callback sequence is compared. race: ResolveNow issued during a poll held open by gating the fake stream; Close during an in-flight poll; random sequences (4-12 actions) of contract changes, ResolveNow calls, gate closings / openings and pauses with the end-to-end oracle 'a request issued after the last change delivers the final contract'. non-trivial = history with >= 3 polls",
-    "level_text": "Coq theorems over ALL histories of poll outcomes: the callback sequence is exactly - an update after the first success and after each success whose contract differs from the LAST DELIVERED one, an error (only) after each failure, nothing otherwise; the remembered fingerprint changes only together with an update (so a failure never loses or fakes a change); the result does not depend on the remembered protocol-version priority. Races: the poller loop with any number of ResolveNow callers, a closer and a changing target is an LTS (Model/ResolverConc.v) with theorems over every interleaving - a returned resolve-now request after whose beginning no poll has started leaves the waiting poller's resolve-now branch enabled (never lost, also when it arrives during a poll), the next poll reads the contract afresh, no callback after Close returned; the loop that re-arms before every wait is refuted by a witness schedule. Tied to the code by gated runs and random sequences of changes / requests / held-open polls on the real resolver.",
+                "race": {"3": "a resolve-now request issued after a change while a poll was in progress was lost", "4": "a callback happened after Close had returned", "5": "random sequence of contract changes, ResolveNow calls and held-open polls: a resolve-now request issued after the last change was lost (the last delivered update is not the final contract)"},
+                "sched": {"4": "forced schedule: a callback happened after Close had returned",
+                          "5": "forced schedule: a resolve-now request that began after the last contract change and returned was lost (left alone until nothing moves, the last delivered update is not the final contract)",
+                          "6": "forced schedule: a goroutine did not arrive at the yield point where the model's schedule puts it (the poller loop / ResolveNow no longer have the modelled shape)",
+                          "7": "forced schedule: the process died while this schedule was being forced on the resolver (a panic or a deadlock under this interleaving; the crash log is in the replay)"}},
+    "rule": "seq: histories of 1-6 polls over a scripted reflection server whose contract (descriptor bytes and/or service list) changes between polls (4 versions), with protocol-version availability {both, v1 only, v1alpha only, neither}, failures at every protocol step (stream open, ListServices, k-th file response; error or timeout), 5 answering policies; polls driven by PollManually + ResolveNow; the flat callback sequence is compared. race: ResolveNow issued during a poll held open by gating the fake stream; Close during an in-flight poll; random sequences (4-12 actions) of contract changes, ResolveNow calls, gate closings / openings and pauses with the end-to-end oracle 'a request issued after the last change delivers the final contract'. sched: every maximal schedule of the concurrent poller model for 7 configurations (1-3 ResolveNow callers x 0-2 contract changes x Close) is enumerated by the extracted model and forced on the real resolver through the yield points compiled in under the tag verif (poller parked at poll:start / before-select / woken / rearmed, callers parked between loading and calling the notify function); delivered updates, number of polls and Close's return are compared with the model, and the run is then left alone until nothing moves to judge 'never lost' end to end; quick tier samples evenly + at random; non-trivial = history with >= 3 polls",
+    "level_text": "Coq theorems over ALL histories of poll outcomes: the callback sequence is exactly - an update after the first success and after each success whose contract differs from the LAST DELIVERED one, an error (only) after each failure, nothing otherwise; the remembered fingerprint changes only together with an update (so a failure never loses or fakes a change); the result does not depend on the remembered protocol-version priority. Races: the poller loop with any number of ResolveNow callers, a closer and a changing target is an LTS (Model/ResolverConc.v) with theorems over every interleaving - a returned resolve-now request after whose beginning no poll has started leaves the waiting poller's resolve-now branch enabled (never lost, also when it arrives during a poll), the next poll reads the contract afresh, no callback after Close returned; the loop that re-arms before every wait is refuted by a witness schedule. Tied to the code by REPLAYING THE MODEL'S SCHEDULES on the real resolver (yield hooks in reflection/resolver.go, tag verif), besides gated runs and random sequences of changes / requests / held-open polls.",
     "level_note": "Trusted: Coq kernel, extraction, modelrun, Go harness (scripted reflection server, quiescence detection). Assumed: equal SHA-256 fingerprints mean equal contracts (fp_faithful); the poll timer is not modelled.",
     "design_ref": "DESIGN.md §3 C15",
-    "assumptions": ["fp_faithful (SHA-256 collision-freeness and unambiguous concatenation)", "the concurrent poller model is tied to the code by gated and random runs with an end-to-end oracle, not by replaying model schedules"],
+    "assumptions": ["fp_faithful (SHA-256 collision-freeness and unambiguous concatenation)", "interleavings are at the granularity of the five yield points; Close is scheduled only where its outcome is determined (poller waiting, resolve-now channel open: Go's select chooses at random otherwise)"],
 }
 
 PROPS["C05"] = {
